@@ -1287,6 +1287,11 @@ impl ServerSession {
             ],
         };
 
+        // The packets have to be serialized in the same order they are returned in, as each
+        // chunk's header compression is based on the chunk serialized before it
+        let reset_payload = reset_message.into_message_payload(self.get_epoch(), stream_id)?;
+        let reset_packet = self.serializer.serialize(&reset_payload, false, false)?;
+
         let stream_begin_payload =
             stream_begin_message.into_message_payload(self.get_epoch(), stream_id)?;
         let stream_begin_packet = self
@@ -1301,9 +1306,6 @@ impl ServerSession {
 
         let data2_payload = data2_message.into_message_payload(self.get_epoch(), stream_id)?;
         let data2_packet = self.serializer.serialize(&data2_payload, false, false)?;
-
-        let reset_payload = reset_message.into_message_payload(self.get_epoch(), stream_id)?;
-        let reset_packet = self.serializer.serialize(&reset_payload, false, false)?;
 
         Ok(vec![
             ServerSessionResult::OutboundResponse(reset_packet),
